@@ -46,6 +46,17 @@ def intern_sym(t):
     return s
 
 
+def attach(sym, cons):
+    """additional definitional constraints reachable from `sym` (they mention it)"""
+    sym = intern_sym(sym)
+    cur = DEFS.setdefault(sym, [])
+    have = set(c.h() for c in cur)
+    for c in cons:
+        if c.h() not in have:
+            cur.append(c)
+            have.add(c.h())
+
+
 def define(sym, cons):
     sym = intern_sym(sym)
     if sym not in DEFS:
